@@ -51,14 +51,15 @@ Qed.
 
 (* accepted => there is a run of the LTS (without the channel-timeout branch) whose projection is the observed trace *)
 Lemma accept_sound_lemma : forall tr s, accept tr = Some s ->
-  exists es os, steps init es = Some s /\ no_timeout es = true /\ trace_obs tr = Some os /\ Forall2 obs_equiv (proj_run init es) os.
+  exists es os, steps init es = Some s /\ no_timeout es = true /\ order_safe es = true /\
+               trace_obs tr = Some os /\ Forall2 obs_equiv (proj_run init es) os.
 Proof.
   intros tr s H. unfold accept in H. destruct (synth tr) as [es|]; [|discriminate].
   unfold accept_with in H. destruct (steps init es) as [s1|] eqn:E1; [|discriminate].
   destruct (trace_obs tr) as [os|] eqn:E2; [|discriminate].
-  destruct (obs_list_eqb (proj_run init es) os && no_timeout es) eqn:E3; [|discriminate].
-  inversion H; subst. apply andb_true_iff in E3. destruct E3 as [E3 E4].
-  exists es, os. repeat split; auto using obs_list_eqb_sound.
+  destruct (obs_list_eqb (proj_run init es) os && no_timeout es && order_safe es) eqn:E3; [|discriminate].
+  inversion H; subst. apply andb_true_iff in E3. destruct E3 as [E3 E5]. apply andb_true_iff in E3. destruct E3 as [E3 E4].
+  exists es, os. split; [exact E1|]. split; [exact E4|]. split; [exact E5|]. split; [reflexivity|]. apply obs_list_eqb_sound. exact E3.
 Qed.
 
 Lemma in_toks_spec : forall t l, in_toks t l = true <-> In t l.
